@@ -11,6 +11,7 @@ import IrVerif.Lemmas.NamesModel
 import IrVerif.Lemmas.NamesOwned
 import IrVerif.Lemmas.NamesRename
 import IrVerif.Lemmas.NamesGen
+import IrVerif.Lemmas.NamesGenPost
 namespace IrVerif.Names
 
 /-! ### C15_loop_terminates -/
@@ -664,7 +665,7 @@ theorem C15_gen_refines_default (w : TWorld) (tops : List Top) (hf : ∀ t, w.fr
     (fixModelX simpleGen w [] tops).w.toWorld = (fixModel w.toWorld tops).1
     ∧ (fixModelX simpleGen w [] tops).modified = (fixModel w.toWorld tops).2.1
     ∧ (fixModelX simpleGen w [] tops).raised = (fixModel w.toWorld tops).2.2 :=
-  fixModelX_sim tops w [] hf
+  fixModelX_sim tops w [] (fun _ t _ => hf t)
 
 /-- the constant generator `"c"` and the generator that answers the empty string -/
 def constGen (c : String) : NameGen := { v := fun _ _ => c, n := fun _ _ => c }
@@ -758,5 +759,146 @@ theorem C15_scoping_necessary :
     ∧ scopedB exWS.inits exTS1.tr [] [] = true
     ∧ (fixModel exWS [exTS1]).1.vname 0 = some "x_1" ∧ (fixModel exWS [exTS1]).1.vname 2 = some "x" := by
   decide
+
+
+/-! ## Part B+ continued — the full postcondition for an arbitrary generator; untouched objects; ill-scoped models -/
+
+/-- **C15_gen_post**: the *full* postcondition of the pass for **every** `NameGenerator` that never answers the empty
+string (necessary: `C15_gen_nonempty_necessary`), on a model that satisfies `PassWF` (initializers keyed by their
+names, closed, **well scoped** — necessary for a custom generator even for "does not raise":
+`C15_gen_total_needs_scoping` — node objects occurring once, top-level graphs disjoint) and in which no tensor that
+backs a value refuses a new name: the pass does not raise; for every graph under every top-level graph the visible
+values have pairwise different non-empty names (within the graph and against the names recorded in enclosing scopes
+on entry), names that were unique are kept, and of several holders of a name exactly the first one (in visiting
+order) keeps it; the same for the nodes of every graph; the initializer dictionaries are keyed by the current names
+and hold the same values; objects the pass cannot reach keep their names.  With a custom generator the shape of a
+generated name is arbitrary, so "the setter's guard never fires" is not a property of counters any more: the proof
+carries the further invariant that every already-seen initializer of the graph of the value being named is visible
+in the current scope (derived from `scopedB` of the part of the tree still to be walked), every unseen one still
+carries its reserved name. -/
+theorem C15_gen_post (gen : NameGen) (hgen : gen.NonEmpty) (w : TWorld) (tops : List Top) (wf : PassWF w.toWorld tops)
+    (hfz : ∀ v t, w.constOf v = some t → w.frozen t = false) :
+    (fixModelX gen w [] tops).raised = false
+    ∧ (∀ t ∈ tops,
+        (∀ L ∈ allScopes w.toWorld.inits t.tr [],
+            InjT (fixModelX gen w [] tops).w.vname L ∧ KeptOn w.vname (fixModelX gen w [] tops).w.vname L
+            ∧ ∀ A v B, L = A ++ v :: B → truthy (w.vname v) = true →
+                ((∀ u ∈ A, w.vname u ≠ w.vname v) → (fixModelX gen w [] tops).w.vname v = w.vname v)
+                ∧ (v ∉ A → (∃ u ∈ A, w.vname u = w.vname v) → (fixModelX gen w [] tops).w.vname v ≠ w.vname v))
+        ∧ (∀ L ∈ allNodeScopes t.tr,
+            InjT (fixModelX gen w [] tops).w.nname L ∧ KeptOn w.nname (fixModelX gen w [] tops).w.nname L
+            ∧ ∀ A n B, L = A ++ n :: B → truthy (w.nname n) = true →
+                ((∀ m ∈ A, w.nname m ≠ w.nname n) → (fixModelX gen w [] tops).w.nname n = w.nname n)
+                ∧ (n ∉ A → (∃ m ∈ A, w.nname m = w.nname n) → (fixModelX gen w [] tops).w.nname n ≠ w.nname n)))
+    ∧ InitsOk (fixModelX gen w [] tops).w.toWorld
+    ∧ (fixModelX gen w [] tops).w.initOf = w.initOf
+    ∧ (∀ g u, u ∈ (fixModelX gen w [] tops).w.toWorld.inits g ↔ u ∈ w.toWorld.inits g)
+    ∧ (∀ u, (∀ t ∈ tops, ¬ TopC w.initOf t u) → (fixModelX gen w [] tops).w.vname u = w.vname u)
+    ∧ (∀ m, (∀ t ∈ tops, m ∉ allNodes t.body) → (fixModelX gen w [] tops).w.nname m = w.nname m) := by
+  have hiv : ∀ g u, u ∈ w.toWorld.inits g ↔ w.initOf u = some g := fun g u => wf.inits.mem_iff g u
+  obtain ⟨r, fv, fn, per⟩ := fixModelX_post hgen w.toWorld.inits tops w [] wf.inits hfz hiv wf.each wf.disj
+  obtain ⟨k1, k2, k3, _, _⟩ := C15_gen_ikey_preserved gen w tops wf.inits
+  refine ⟨r, ?_, k1, k2, k3, fv, fn⟩
+  intro t ht
+  obtain ⟨pv, pn⟩ := per t ht
+  exact ⟨fun L hL => ⟨(pv L hL).1, (pv L hL).2.1, fun A v B e h1 => first_exact (pv L hL).2.2 (pv L hL).1.inj A v B e h1⟩,
+    fun L hL => ⟨(pn L hL).1, (pn L hL).2.1, fun A n B e h1 => first_exact (pn L hL).2.2 (pn L hL).1.inj A n B e h1⟩⟩
+
+/-- the hypotheses of `C15_gen_post` are satisfiable by a generator other than the default one on a model on which
+the pass has work to do (the D31 world with a function; results in `C15_gen_nonempty_necessary`) -/
+theorem constGen_c_nonEmpty : (constGen "c").NonEmpty :=
+  fun _ _ => ⟨by show "c" ≠ ""; decide, by show "c" ≠ ""; decide⟩
+example : (fixModelX (constGen "c") (twOf exW2) [] [exT2, exT3]).raised = false :=
+  (C15_gen_post (constGen "c") constGen_c_nonEmpty (twOf exW2) [exT2, exT3] exWF2 (fun _ _ h => by simp [twOf] at h)).1
+/-- `NonEmpty` is a real restriction -/
+example : ¬ (constGen "").NonEmpty := fun h => (h 0 none).1 rfl
+
+/-- **C15_gen_untouched**: what the pass does *not* touch, for every generator, every scoping and every outcome
+(also the exceptional exit).  `glog` is the log of generator calls (`(false, v)` = `generate_value_name(v)`,
+`(true, n)` = `generate_node_name(n)`); a name is only ever assigned after the generator was asked.  A value (node)
+the generator was never asked about keeps its name, and **a tensor none of whose values was handed to the generator
+keeps its name** (the write-through of `Value.name` is the only way the pass renames a tensor). -/
+theorem C15_gen_untouched (gen : NameGen) (w : TWorld) (tops : List Top) :
+    (∀ v, (false, v) ∉ (fixModelX gen w [] tops).glog → (fixModelX gen w [] tops).w.vname v = w.vname v)
+    ∧ (∀ t, (∀ v, w.constOf v = some t → (false, v) ∉ (fixModelX gen w [] tops).glog) →
+        (fixModelX gen w [] tops).w.tname t = w.tname t)
+    ∧ (∀ n, (true, n) ∉ (fixModelX gen w [] tops).glog → (fixModelX gen w [] tops).w.nname n = w.nname n) := by
+  obtain ⟨h1, _, h3, h4⟩ := fixModelX_inv2 (LogInv.step gen w) tops w []
+    ⟨fun _ _ => rfl, rfl, fun _ _ => rfl, fun _ _ => rfl⟩
+  exact ⟨h1, h3, h4⟩
+
+/-- on the D30 world with tensors (value 1 backed by tensor 0): only value 1 is handed to the generator; with a second
+tensor 1 backing value 2 (not renamed) that tensor keeps its name -/
+example : (fixModelX simpleGen (exTWx false) [] [exT]).glog = [(false, 1)] := by decide
+
+/-- **C15_gen_default_raises_only_on_refusal**: with the default `SimpleNameGenerator`, on a model whose initializers
+are keyed by their names (whatever the scoping), the pass raises *only* because a tensor that backs a value refuses
+its new name: if it raises, such a tensor exists.  (Equivalently: when no backing tensor refuses, the general model
+is the plain model, which never raises — `C15_gen_refines_default` under the weaker hypothesis, `C15_namefix_total`.) -/
+theorem C15_gen_default_raises_only_on_refusal (w : TWorld) (tops : List Top) (hok : InitsOk w.toWorld)
+    (hcl : ∀ t ∈ tops, Closed w.initOf t) :
+    ((fixModelX simpleGen w [] tops).raised = true → ∃ v t, w.constOf v = some t ∧ w.frozen t = true)
+    ∧ ((∀ v t, w.constOf v = some t → w.frozen t = false) →
+        (fixModelX simpleGen w [] tops).w.toWorld = (fixModel w.toWorld tops).1
+        ∧ (fixModelX simpleGen w [] tops).modified = (fixModel w.toWorld tops).2.1
+        ∧ (fixModelX simpleGen w [] tops).raised = false) := by
+  have key : (∀ v t, w.constOf v = some t → w.frozen t = false) →
+      (fixModelX simpleGen w [] tops).w.toWorld = (fixModel w.toWorld tops).1
+      ∧ (fixModelX simpleGen w [] tops).modified = (fixModel w.toWorld tops).2.1
+      ∧ (fixModelX simpleGen w [] tops).raised = false := by
+    intro hf
+    obtain ⟨a, b, c⟩ := fixModelX_sim tops w [] hf
+    exact ⟨a, b, c.trans (C15_namefix_total w.toWorld tops hok hcl).1⟩
+  refine ⟨?_, key⟩
+  intro hr
+  apply Classical.byContradiction
+  intro hne
+  have hf : ∀ v t, w.constOf v = some t → w.frozen t = false := by
+    intro v t hv
+    cases hfz : w.frozen t with
+    | false => rfl
+    | true => exact absurd ⟨v, t, hv, hfz⟩ hne
+  rw [(key hf).2.2] at hr
+  cases hr
+
+/-- the refusing tensor of the example above is the reason the pass raises there -/
+example : (fixModelX simpleGen (exTWx true) [] [exT]).raised = true ∧ (exTWx true).constOf 1 = some 0 ∧ (exTWx true).frozen 0 = true := by
+  decide
+
+/-- **C15_illscoped_nodes**: what the pass guarantees on **ill-scoped** models (values shared by sibling subgraphs,
+by the main graph and a function, ...).  No scoping hypothesis: on every model whose initializers are keyed by their
+names (closed, node objects occurring once, top-level graphs sharing no nodes) the pass does not raise, the
+initializer dictionaries stay keyed by the current non-empty names — so the initializers of one graph always end
+with pairwise different non-empty names — and in **every** graph all nodes have pairwise different non-empty names,
+unique node names are kept and the first holder of a node name keeps it.  (For value names the scoping rule is
+necessary: `C15_scoping_necessary`.) -/
+theorem C15_illscoped_nodes (w : World) (tops : List Top) (hok : InitsOk w)
+    (hyp : ∀ t ∈ tops, Closed w.initOf t ∧ (allNodes t.body).Nodup)
+    (hdisj : tops.Pairwise (fun a b => ∀ n ∈ allNodes a.body, n ∉ allNodes b.body)) :
+    (fixModel w tops).2.2 = false
+    ∧ InitsOk (fixModel w tops).1
+    ∧ (∀ g, ((fixModel w tops).1.dicts g).Pairwise (fun a b => a.2 ≠ b.2 → (fixModel w tops).1.vname a.2 ≠ (fixModel w tops).1.vname b.2))
+    ∧ ∀ t ∈ tops, ∀ L ∈ allNodeScopes t.tr,
+        InjT (fixModel w tops).1.nname L ∧ KeptOn w.nname (fixModel w tops).1.nname L
+        ∧ FirstB w.nname (fixModel w tops).1.nname L := by
+  obtain ⟨t1, t2, _⟩ := fixModel_total tops w hok (fun t ht => (hyp t ht).1)
+  refine ⟨t1, t2, ?_, fixModel_nodes tops w hok hyp hdisj⟩
+  intro g
+  have hnd := t2.keys_nodup g
+  rw [List.pairwise_iff_forall_sublist]
+  intro a b hab _ heq
+  have ha : a ∈ (fixModel w tops).1.dicts g := hab.subset (by simp)
+  have hb : b ∈ (fixModel w tops).1.dicts g := hab.subset (by simp)
+  have e1 := (t2.key_name g a.1 a.2 ha).1
+  have e2 := (t2.key_name g b.1 b.2 hb).1
+  rw [e1, e2] at heq
+  have hk : a.1 = b.1 := Option.some.inj heq
+  have hsub : [a.1, b.1].Sublist (((fixModel w tops).1.dicts g).map (·.1)) := by
+    simpa using hab.map (·.1)
+  have := hsub.nodup hnd
+  simp [hk] at this
+
+/-- the ill-scoped witness of `C15_scoping_necessary`: its node names still come out unique per graph -/
+example : ((List.range 3).map (fixModel exWS [exTS]).1.nname) = [some "A", some "I1", some "I2"] := by decide
 
 end IrVerif.Names
